@@ -198,7 +198,7 @@ func c03Invariant(pre, post *Abs, st *Step) []Violation {
 func checkC03(e *RunEnv) *CheckResult {
 	spec := &Spec{
 		Seeds: append(allSeeds(), Seed{"dir-becomes-file", append(seedS1(), Rmdir("d"), Write("d", "now a file\n"), Run("add", "d"))}),
-		Depth: e.pick(3, 4),
+		Depth: e.depth(3, 4),
 		Steps: c03Steps(e.Thorough()),
 		CheckTrans: func(c *Ctx, pre *Node, st Step, res *Result, post *State) ([]Violation, bool) {
 			vs := c03Invariant(pre.Abs(), post.Abs(), &st)
@@ -216,7 +216,7 @@ func checkC03(e *RunEnv) *CheckResult {
 	// stage something else before committing): an object that an older commit still needs must never go away
 	cyc := &Spec{
 		Seeds: []Seed{{"S0", seedS0()}},
-		Depth: e.pick(6, 8),
+		Depth: e.depth(6, 8),
 		Steps: func(n *Node) []Step {
 			st := stateTags(n.Abs())
 			var steps []Step
